@@ -1,2 +1,3 @@
+-- Root of the library. `./check --setup` builds the property modules explicitly
+-- (`Manticore.Props.Cxx`), so nothing needs to be listed here.
 import Manticore.Basic
-import Manticore.Model.C16
